@@ -13,9 +13,20 @@ import os
 from lib import repo, simmp, simrun, guard
 from checks import c01, c03
 
-FLAVOURS = ["plain", "unpicklable", "signal", "oserror"]
+FLAVOURS = ["plain", "unpicklable", "signal", "oserror", "oserror-noerrno"]
 WQ_CFG = c03.CFG
 WALK_CFG = c01.CFG
+
+
+_ROT = [0]
+
+
+def next_flavour(ctx):
+    """Fault flavours in rotation (starting point seeded), so that every entry point meets every flavour even in the quick tier."""
+    if _ROT[0] == 0:
+        _ROT[0] = 1 + ctx.rng.randrange(len(FLAVOURS))
+    _ROT[0] += 1
+    return FLAVOURS[_ROT[0] % len(FLAVOURS)]
 
 
 def judge_fault(ctx, label, key, out, log, rep):
@@ -45,7 +56,7 @@ def explore_stage_faults(ctx, stage, nws, policies, runs, items_subset=None, all
             for pol in policies:
                 for k in range(runs):
                     log = []
-                    stage.flavour = FLAVOURS[ctx.rng.randrange(len(FLAVOURS))]
+                    stage.flavour = next_flavour(ctx)
                     out = simrun.run(stage.main(nw, log, faults=fset), simrun.POLICIES[pol](ctx.rng))
                     flav = stage.flavour
                     stage.flavour = "plain"
@@ -57,10 +68,13 @@ def explore_stage_faults(ctx, stage, nws, policies, runs, items_subset=None, all
                     ctx.distinct(("fault", stage.key, repr(it), nw, tuple((a, o) for a, _op, o in out.trace)))
 
 
-def explore_walk_faults(ctx, depth, confs, nws, policies, runs):
+def explore_walk_faults(ctx, depth, confs, nws, policies, runs, only_level=None, max_items=None):
     table = c01.ops_table(ctx, depth, [(a, x) for a, x, g in confs])
     for (acc, apex, generic), row in zip(confs, table):
-        for it in row["ops"]:
+        cand = [it for it in row["ops"] if only_level is None or it[0] == only_level]
+        if max_items is not None and len(cand) > max_items:
+            cand = cand[:1] + ctx.rng.sample(cand[1:], max_items - 1)
+        for it in cand:
             # serial mode: the exception reaches the caller
             try:
                 with simrun.quiet():
@@ -76,7 +90,7 @@ def explore_walk_faults(ctx, depth, confs, nws, policies, runs):
                 for pol in policies:
                     for k in range(runs):
                         log = []
-                        flav = FLAVOURS[ctx.rng.randrange(len(FLAVOURS))]
+                        flav = next_flavour(ctx)
                         out = simrun.run(c01.walk_main(depth, acc, apex, nw, log, faults={it}, generic=generic, flavour=flav), simrun.POLICIES[pol](ctx.rng))
                         ctx.count()
                         fs = any(tag == "cb_start" and p == it for tag, p, who in log)
@@ -223,6 +237,10 @@ def run(ctx):
     # everything else microseconds - the schedule under which work continues after a failure
     wpols = (pols + ["late-timeout"]) if not q else ["random", "late-timeout", "starve-feeder"]
     explore_walk_faults(ctx, 2, wconfs if not q else wconfs[:3], [2] if q else [2, 3], wpols, 1 if q else 4)
+    # a wide level: the failure is noticed while the surviving workers still have more ready tiles than the done queue holds
+    d3 = c01.with_kids([(1, 0, 0), (1, 1, 1)], 3) - {(3, 0, 0), (3, 7, 7)}
+    explore_walk_faults(ctx, 3, [(d3, c01.ROOT, False)], [2], ["eager-timeout", "late-timeout"] if q else ["eager-timeout", "late-timeout", "random", "starve-feeder"], 1 if q else 3,
+                        only_level=2, max_items=3 if q else 8)
     l1full = c01.with_kids(l1, 3)
     explore_walk_many_faults(ctx, 2, [(c01.with_kids(l1, 2), c01.ROOT, True), (fam[1], c01.ROOT, False)], [2, 3], ["random", "workers-last", "eager-timeout"], 1 if q else 4)
     explore_walk_many_faults(ctx, 3, [(l1full, c01.ROOT, True)], [2], ["random", "main-first"], 1 if q else 3)
